@@ -347,3 +347,15 @@ Qed.
 Lemma si_close_always_returns items :
   si_close_walk (si_closers items) = (length (si_closers items), true).
 Proof. apply si_close_walk_no_wait. apply si_closers_no_peer_wait. Qed.
+
+(* ---- round 8 ---- *)
+Lemma si_dial_tls_safe : si_safeb (si_prog_dial_tls true) = true /\ si_safeb (si_prog_dial_tls false) = false.
+Proof. split; reflexivity. Qed.
+
+Lemma si_cache_close_all mem redis :
+  si_cache_close false (si_cache_tiers mem redis) = si_cache_tiers mem redis /\
+  NoDup (si_cache_tiers mem redis) /\ si_cache_left false mem redis = [].
+Proof. destruct mem, redis; cbn; repeat split; repeat constructor; cbn; intuition discriminate. Qed.
+
+Lemma si_cache_close_early_leaves : si_cache_left true true true = [SiTierRedis].
+Proof. reflexivity. Qed.
